@@ -4,6 +4,8 @@ pub mod c02;
 pub mod c03;
 pub mod c12;
 pub mod c13;
+pub mod c14;
+pub mod c15;
 pub mod c17;
 pub mod c18;
 pub mod c19;
@@ -22,6 +24,8 @@ pub fn dispatch_run(id: &str, run: &mut Run) -> bool {
         "C13" => c13::run(run),
         "C18" => c18::run(run),
         "C19" => c19::run(run),
+        "C14" => c14::run(run),
+        "C15" => c15::run(run),
         "C17" => c17::run(run),
         _ => return false,
     }
@@ -37,6 +41,8 @@ pub fn dispatch_replay(id: &str, check: &str, case: Value, run: &mut Run) -> Res
         "C13" => c13::replay(check, case, run),
         "C18" => c18::replay(check, case, run),
         "C19" => c19::replay(check, case, run),
+        "C14" => c14::replay(check, case, run),
+        "C15" => c15::replay(check, case, run),
         "C17" => c17::replay(check, case, run),
         _ => Err(format!("unknown property {id}")),
     }
